@@ -1,6 +1,7 @@
 package sim
 
 import (
+	"bytes"
 	"fmt"
 	"time"
 
@@ -46,6 +47,7 @@ type profile struct {
 	exactPct    int  // a handler's last response is padded to a buffer-size boundary
 	noTLSRoute  int  // C13: no StartTLS route registered, the default route upgrades (pct)
 	again       int  // C13: a further StartTLS request inside the tunnel (pct)
+	embedPct    int  // C01: with a read timeout, a frame whose value is itself a frame, sent in two parts around the deadline
 }
 
 func profileFor(prop, tier string) profile {
@@ -64,7 +66,7 @@ func profileFor(prop, tier string) profile {
 		base.bigPct = 3
 		if prop == "C01" {
 			// a read deadline that expires in the middle of a frame
-			base.timeoutPct, base.faults, base.faultBudget = 6, []string{"clock"}, 2
+			base.timeoutPct, base.faults, base.faultBudget, base.embedPct = 6, []string{"clock"}, 2, 50
 		}
 		if prop == "C14" {
 			base.extraFrames, base.stallPct = 2, 30
@@ -507,6 +509,35 @@ func DrawCore(prop, tier string, ch *Chooser, lean bool, s *Sim) *Core {
 						cl.Steps[si].Data = append(append([]byte{}, cl.Steps[si].Data...), xq.Bytes...)
 						cl.Injecting, cl.disturbed = true, true
 					}
+				}
+			}
+		}
+		if cfg.ReadTimeout > 0 && cl.Flavour == 0 && unbindAt < 0 && cl.Behaviour == "" && ch.Chance(p.embedPct) {
+			// A request one of whose values is, byte for byte, a complete
+			// request of its own (which nobody sent), delivered in two parts
+			// with the second starting exactly at that value, and possibly a
+			// pause longer than the read timeout in between, while an earlier
+			// request is still being served. Whatever the read loop does about
+			// the deadline, the inner bytes are never a request.
+			inner := plainRequest(g)
+			it, _ := inner.TLV()
+			ib := encRaw(it)
+			rec := &ReqRec{Op: "add", MsgID: g.MsgID(), BindVersion: 3, DN: "cn=embedded", AddAttrs: []AttrRec{{Type: "description", Vals: []string{string(ib)}}}}
+			if t, err := rec.TLV(); err == nil {
+				q := &Req{Rec: rec, Bytes: encRaw(t), Client: i, Pos: nReq + 1, Script: &Script{}}
+				c.drawScript(q, p, ch, g)
+				q.Script.Panic = false
+				if at := bytes.Index(q.Bytes, ib); at > 0 {
+					c.reqs[rec.MsgID] = q
+					if len(reqs) > 0 {
+						reqs[ch.Choose(len(reqs))].Script.Stall = 1 + ch.Choose(2)
+					}
+					cl.Steps = append(cl.Steps, CStep{Kind: stSend, Data: q.Bytes[:at]})
+					if ch.Choose(3) != 0 {
+						cl.Steps = append(cl.Steps, CStep{Kind: stWait, Dur: cfg.ReadTimeout + time.Duration(ch.Choose(3))*cfg.ReadTimeout})
+					}
+					cl.Steps = append(cl.Steps, CStep{Kind: stSend, Data: q.Bytes[at:], Reqs: []*Req{q}})
+					nReq++
 				}
 			}
 		}
